@@ -173,32 +173,61 @@ func runC12(r *Report) {
 		}
 		if r.Anchor("R12b", "readB: declared length", L != nil) {
 			nPay := 0
-			for _, s := range CallSites(fn, "io.ReadFull", "io.CopyN") {
-				c := s.Call().Common()
-				exact := false
-				switch CalleeName(s.Call()) {
-				case "io.ReadFull":
-					if ms, ok := Strip(c.Args[1]).(*ssa.MakeSlice); ok && rdr(c.Args[0]) {
-						exact = sameLen(ms.Len, L)
-					}
-				case "io.CopyN":
-					exact = rdr(c.Args[1]) && c.Args[2] == L
+			// the payload read may live in an unexported helper readB hands the reader and the length to
+			isHelperCall := func(in ssa.Instruction) (*ssa.Function, ssa.Value, bool) {
+				c, ok := in.(*ssa.Call)
+				if !ok {
+					return nil, nil, false
 				}
-				nPay++
-				r.ObSite("R12b", s, "payload-read-is-declared-length", exact, "the payload read takes exactly the declared number of bytes from the connection")
+				callee := c.Call.StaticCallee()
+				if callee == nil || callee.Blocks == nil || callee.Pkg != fn.Pkg || isExportedName(callee.Name()) || len(callee.Params) == 0 || !rdr(c.Call.Args[0]) {
+					return nil, nil, false
+				}
+				for k, a := range c.Call.Args {
+					if sameLen(a, L) && k < len(callee.Params) && len(CallSites(callee, "io.ReadFull", "io.CopyN")) > 0 {
+						return callee, callee.Params[k], true
+					}
+				}
+				return nil, nil, false
+			}
+			payload := func(f *ssa.Function, L ssa.Value, trailer bool) {
+				for _, s := range CallSites(f, "io.ReadFull", "io.CopyN") {
+					c := s.Call().Common()
+					exact := false
+					switch CalleeName(s.Call()) {
+					case "io.ReadFull":
+						if ms, ok := Strip(c.Args[1]).(*ssa.MakeSlice); ok && rdr(c.Args[0]) {
+							exact = sameLen(ms.Len, L)
+						}
+					case "io.CopyN":
+						exact = rdr(c.Args[1]) && c.Args[2] == L
+					}
+					nPay++
+					r.ObSite("R12b", s, "payload-read-is-declared-length", exact, "the payload read takes exactly the declared number of bytes from the connection")
+					if trailer {
+						r.ObSite("R12b", s, "trailer-after-payload", MustPassOrEdge(s, func(in ssa.Instruction) bool { return isDiscard(in, 2) || errRet(in) }, nil), "after the payload the 2-byte CRLF trailer is consumed on every success path")
+					}
+				}
+				// no success return without a payload read
+				for _, ret := range ReturnsAvoiding(f, func(in ssa.Instruction) bool {
+					if _, _, ok := isHelperCall(in); ok && f == fn {
+						return true
+					}
+					_, ok := CallTo(in, "io.ReadFull", "io.CopyN")
+					return ok
+				}) {
+					r.ObSite("R12b", SiteOf(ret), "success-without-payload", errRet(ret), FuncName(f)+" returns success only after reading the payload")
+				}
+			}
+			payload(fn, L, true)
+			for _, s := range Sites(fn, func(in ssa.Instruction) bool { _, _, ok := isHelperCall(in); return ok }) {
+				h, hl, _ := isHelperCall(s.Instr)
+				payload(h, hl, false)
 				r.ObSite("R12b", s, "trailer-after-payload", MustPassOrEdge(s, func(in ssa.Instruction) bool { return isDiscard(in, 2) || errRet(in) }, nil), "after the payload the 2-byte CRLF trailer is consumed on every success path")
 			}
 			r.Anchor("R12b", "readB payload reads (2 arms)", nPay >= 1)
-			// no success return without a payload read
-			for _, ret := range ReturnsAvoiding(fn, func(in ssa.Instruction) bool {
-				_, ok := CallTo(in, "io.ReadFull", "io.CopyN")
-				return ok
-			}) {
-				r.ObSite("R12b", SiteOf(ret), "success-without-payload", errRet(ret), "readB returns success only after reading the payload")
-			}
 		}
 	}
-	// chunked string loop
 	if fn := r.FnAnchor("R12b", "rueidis.readBlobString"); fn != nil {
 		n := 0
 		for _, s := range CallSites(fn, "io.CopyN") {
